@@ -23,7 +23,7 @@ import (
 func init() {
 	mon.Register(&mon.Prop{
 		ID: "C15", Level: "exploration",
-		Rule: "generated annotated sequences with every field of Meta, Locus, Reference, Feature and Location populated at random (location trees to depth 4, partial flags, empty and absent collections, valid non-ASCII UTF-8 and <>& in text) plus the parser outputs over generated GenBank files (C01's generator) and GFF files (C14's generator); each goes through json.Marshal -> polyjson.Parse and, for a sample, polyjson.Write -> polyjson.Read on a temp file; non-trivial = at least one feature; distinct by hash of the JSON text",
+		Rule:        "generated annotated sequences with every field of Meta, Locus, Reference, Feature and Location populated at random (location trees to depth 4, partial flags, empty and absent collections, valid non-ASCII UTF-8 and <>& in text) plus the parser outputs over generated GenBank files (C01's generator) and GFF files (C14's generator); each goes through json.Marshal -> polyjson.Parse and, for a sample, polyjson.Write -> polyjson.Read on a temp file; non-trivial = at least one feature; distinct by hash of the JSON text",
 		Assumptions: []string{"equality is field by field on the Go values (reflection), nil and empty collections are equal, the parent pointer is checked by calling GetSequence", "feature sequences are evaluated by the harness's own INSDC evaluator on the in-memory Location"},
 		Shards:      tierShards(8, 16), WatchdogSec: tierSecs(600, 3600),
 		MinStats: func(string) map[string]int64 {
